@@ -185,10 +185,27 @@ def _build(nfa, sub, start):
     return cur
 
 
+def _tree(p):
+    """a pattern text or an already parsed (sub-)pattern"""
+    return parse(p) if isinstance(p, str) else p
+
+
+def group_tree(pattern, group_name):
+    """The parsed body of the named group ``group_name`` of ``pattern`` (usable wherever a pattern is)."""
+    p = parse(pattern)
+    gid = p.state.groupdict.get(group_name)
+    if gid is None:
+        raise AnalysisError('group %s not found in %r' % (group_name, pattern))
+    for op, av in walk(p):
+        if op == C.SUBPATTERN and av[0] == gid:
+            return av[3]
+    raise AnalysisError('group %s not found' % group_name)
+
+
 def to_nfa(pattern):
     nfa = NFA()
     s = nfa.new()
-    e = _build(nfa, parse(pattern), s)
+    e = _build(nfa, _tree(pattern), s)
     return nfa, s, e
 
 
@@ -208,7 +225,7 @@ def alphabet_for(*patterns):
     """Representative characters: one per class of the partition induced by all atoms."""
     cands = set('/ .+-eEaZ_0959\t\n%?#:;=&~') | {'é', 'x'}
     for p in patterns:
-        for op, av in walk(parse(p)):
+        for op, av in walk(_tree(p)):
             if op in (C.LITERAL, C.NOT_LITERAL):
                 cands.add(chr(av))
             elif op == C.IN:
@@ -221,7 +238,7 @@ def alphabet_for(*patterns):
     # reduce to one representative per signature
     atoms = []
     for p in patterns:
-        for op, av in walk(parse(p)):
+        for op, av in walk(_tree(p)):
             if op in (C.LITERAL, C.NOT_LITERAL, C.ANY, C.IN, C.CATEGORY):
                 atoms.append((op, av))
     reps = {}
